@@ -831,6 +831,11 @@ func (g *Gen) ProposalCreate() txgen.Tx {
 		cfg = rapid.SampledFrom(ConfigUpdates).Draw(g.T, "cfg")
 	}
 	tags := []string{mtag}
+	if len(w.Props) > 0 && g.pct(g.Strange, "reuse-id") {
+		// ids are chosen by the sender: ask for one that exists already
+		id = w.Props[g.Uniform(len(w.Props), "reuse-which")].ID
+		tags = append(tags, "id-reused")
+	}
 	if g.pct(g.Strange, "wrongdl") {
 		voteDL += int64(rapid.IntRange(-2, 2).Draw(g.T, "voteoff"))
 		fundDL += int64(rapid.IntRange(-3, 0).Draw(g.T, "fundoff"))
